@@ -160,6 +160,15 @@ func genNpmDocs(thorough bool) []*npmDoc {
 			}
 		}
 	}
+	// F1b: the requirement-value alphabet: empty string, whitespace only, "*", a dist-tag, a range with spaces
+	for _, s := range readable {
+		for _, v := range []string{"", " ", "*", "latest", ">=1.0.0 <2.0.0"} {
+			for _, st := range []int{0, 2} {
+				add("value-forms", st, append(head(), sec(s, jEntry{"left-pad", v}))...)
+				add("value-forms", st, append(head(), sec(s, filler, jEntry{"left-pad", v}, jEntry{"lodash.merge", v}))...)
+			}
+		}
+	}
 	// F2: ordered pairs of entries in one section (wildcard collisions, alias + real name)
 	f2secs := []string{secDeps}
 	f2styles := []int{0}
